@@ -8,6 +8,7 @@ import WacProofs.Lemmas.GraphInvDefine2
 import WacProofs.Lemmas.GraphInvRemove2
 import WacProofs.Lemmas.GraphInvUnreg4
 import WacProofs.Lemmas.GraphNoPanic2
+import WacProofs.Lemmas.GraphQueries
 /-
   C06 — the graph API stays consistent over every operation history.
 
@@ -246,6 +247,25 @@ theorem no_panic_live_partial (ctx : Ctx) (g : Graph) (op : Op) (h : Inv ctx g) 
 -- non-vacuity: live identifiers in a non-trivial state
 example : LiveIds (run ctxW {} [.register pkgW, .instantiate ⟨0, 0⟩, .instantiate ⟨0, 0⟩, .alias 0 ['a']]).1
     (.setArg 1 ['a'] 2) = true := by decide
+
+/-! ### every query reflects exactly the surviving items -/
+
+/-- on a consistent graph the public queries do not fail and only mention live nodes:
+    `node_ids` lists exactly the live slots; `get_export` answers with a live node and finds every
+    entry of the export map; `get_alias_source` of an alias node is its live source with the name
+    of the aliased export; `get_instantiation_arguments` succeeds and every source is live -/
+theorem queries_reflect_survivors (ctx : Ctx) (g : Graph) (h : Inv ctx g) :
+    (∀ m, m ∈ g.nodeIds ↔ g.live m = true) ∧
+    (∀ name n, getExport g name = some n ↔ (name, n) ∈ g.exports) ∧
+    (∀ name n, getExport g name = some n → g.live n = true) ∧
+    (∀ n nd, g.node? n = some nd → nd.kind = .alias →
+      ∃ src ename, getAliasSource ctx g n = .ok (some (src, ename)) ∧ g.live src = true) ∧
+    (∀ n, ∃ l, getInstantiationArguments g n = .ok l ∧ ∀ p ∈ l, g.live p.2 = true) :=
+  ⟨fun _ => mem_nodeIds,
+   fun _ _ => ⟨fun hq => (getExport_live h hq).2, fun hm => getExport_complete h hm⟩,
+   fun _ _ hq => (getExport_live h hq).1,
+   fun _ _ hnd hk => getAliasSource_alias h hnd hk,
+   fun n => getInstantiationArguments_ok h n⟩
 
 /-! ### removal leaves no trace -/
 
